@@ -105,6 +105,11 @@ func (g *dgen) node0(depth int, xml bool) *dnode {
 	case 7:
 		return &dnode{kind: "istruct", name: g.fname(), tname: g.tname()}
 	case 8, 9:
+		if !xml && g.r.Intn(4) == 0 {
+			return &dnode{kind: "struct", name: g.fname(), tname: ".Gear", predef: true, sub: []*dnode{
+				{kind: "slist", name: "Cost", typ: "int32"}, {kind: "smap", name: "Data", ktyp: "int32", typ: "string"},
+				{kind: "scalar", name: "Title", typ: "string"}, {kind: "slist", name: "Stat", typ: "string"}}}
+		}
 		n := &dnode{kind: "struct", name: g.fname(), tname: g.tname()}
 		for i := 1 + g.r.Intn(3); i > 0; i-- {
 			n.sub = append(n.sub, g.node(depth-1, xml))
@@ -209,6 +214,13 @@ func (g *dgen) value(n *dnode) *dval {
 		}
 		v.fields = []*dval{{text: strconv.Itoa(1 + r.Intn(100))}, {text: strconv.Itoa(r.Intn(50) - 10)}}
 	case "struct":
+		if n.predef {
+			// the predefined type's fields carry no `optional`: every member is in the document
+			for _, s := range n.sub {
+				v.fields = append(v.fields, g.forced(s))
+			}
+			return v
+		}
 		for _, s := range n.sub {
 			v.fields = append(v.fields, g.value(s))
 		}
@@ -435,6 +447,10 @@ func (w *ywriter) schemaFields(nodes []*dnode, ind string) {
 		case "istruct":
 			w.ln(ind + n.name + ": " + yqt("{uint32 ID, int32 Num}"+n.tname+optSfx(n)))
 		case "struct":
+			if n.predef {
+				w.ln(ind + n.name + ": " + yqt("{"+n.tname+"}"+optSfx(n)))
+				break
+			}
 			w.ln(ind + n.name + ":")
 			w.ln(ind + `  "@type": ` + yqt("{"+n.tname+"}"+optSfx(n)))
 			incellFalse()
@@ -756,6 +772,28 @@ func fieldByOptName(md protoreflect.MessageDescriptor, name string) protoreflect
 			return fd
 		}
 	}
+	// a field without options: its document-side name is the camel-cased field name without a List / Map suffix
+	for i := 0; i < md.Fields().Len(); i++ {
+		fd := md.Fields().Get(i)
+		if opts, _ := proto.GetExtension(fd.Options(), tableaupb.E_Field).(*tableaupb.FieldOptions); opts != nil && opts.Name != "" {
+			continue
+		}
+		var sb strings.Builder
+		for _, part := range strings.Split(string(fd.Name()), "_") {
+			if part != "" {
+				sb.WriteString(strings.ToUpper(part[:1]) + part[1:])
+			}
+		}
+		derived := sb.String()
+		if fd.IsMap() {
+			derived = strings.TrimSuffix(derived, "Map")
+		} else if fd.IsList() {
+			derived = strings.TrimSuffix(derived, "List")
+		}
+		if derived == name {
+			return fd
+		}
+	}
 	return nil
 }
 
@@ -994,6 +1032,13 @@ message Label {
 message Reward {
   uint32 id = 1 [(tableau.field).name = "ID"];
   int32 num = 2 [(tableau.field).name = "Num"];
+}
+// no (tableau.field) options at all: the document-side names are derived from the field names
+message Gear {
+  repeated int32 cost_list = 1;
+  map<int32, string> data_map = 2;
+  string title = 3;
+  repeated string stat_list = 4;
 }
 `
 
